@@ -66,7 +66,8 @@ def erase(s: str) -> str:
 LEAF_KINDS = {
     # kind: (via_tag, writes)
     "out": (False, True), "liqecho": (False, True), "cmt1": (False, False),
-    "cmt2": (False, False), "cmt3": (False, False), "liqassign": (False, False),
+    "cmt2": (False, False), "cmt2n": (False, False), "cmt2r": (False, False),
+    "cmt3": (False, False), "liqassign": (False, False),
     "echo": (True, True), "assign": (True, False),
 }
 
@@ -83,7 +84,25 @@ def n_positions(items: list) -> int:
     return n
 
 
-def leaf_src(kind: str, w: int | None, l: str, r: str) -> str:
+# Marker positions that exist in the source but not in the token the parser
+# sees: the right marker of `{% comment %}`, the left marker of
+# `{% endcomment %}`, and every marker of comment / raw tags nested inside a
+# comment block.  They take every value of {none,-,~,+} too and must change
+# nothing at all.
+EXTRA = {"cmt2": 2, "cmt2n": 6, "cmt2r": 8}
+
+
+def n_extra(items: list) -> int:
+    n = 0
+    for it in items:
+        if it[0] == "L":
+            n += EXTRA.get(it[2], 0)
+        elif it[0] == "B":
+            n += n_extra(it[3]) + sum(n_extra(b) for _, b in it[4])
+    return n
+
+
+def leaf_src(kind: str, w: int | None, l: str, r: str, xs: Iterator[str] = iter(())) -> str:
     if kind == "out":
         return f"{{{{{l} v{w} {r}}}}}"
     if kind == "liqecho":
@@ -91,7 +110,16 @@ def leaf_src(kind: str, w: int | None, l: str, r: str) -> str:
     if kind == "cmt1":
         return f"{{#{l} c {r}#}}"
     if kind == "cmt2":
-        return f"{{%{l} comment %}} c {{% endcomment {r}%}}"
+        x = [next(xs) for _ in range(2)]
+        return f"{{%{l} comment {x[0]}%}} c {{%{x[1]} endcomment {r}%}}"
+    if kind == "cmt2n":
+        x = [next(xs) for _ in range(6)]
+        return (f"{{%{l} comment {x[0]}%}} a {{%{x[1]} comment {x[2]}%}} b {{%{x[3]} endcomment {x[4]}%}}"
+                f" c {{%{x[5]} endcomment {r}%}}")
+    if kind == "cmt2r":
+        x = [next(xs) for _ in range(8)]
+        return (f"{{%{l} comment {x[0]}%}} a {{%{x[1]} raw {x[2]}%}} {{%{x[3]} endcomment {x[4]}%}} "
+                f"{{%{x[5]} endraw {x[6]}%}} b {{%{x[7]} endcomment {r}%}}")
     if kind == "cmt3":
         return f"{{%{l} # c {r}%}}"
     if kind == "liqassign":
@@ -107,14 +135,14 @@ OPEN = {"if": "if b{p}", "unless": "unless b{p}", "for": "for i in a{p}", "case"
         "capture": "capture v{p}", "with": "with w: 1"}
 
 
-def to_source(items: list, ms: Iterator[str]) -> str:
+def to_source(items: list, ms: Iterator[str], xs: Iterator[str] = iter(())) -> str:
     out = []
     for it in items:
         if it[0] == "C":
             out.append(it[1])
         elif it[0] == "L":
             l, r = next(ms), next(ms)
-            out.append(leaf_src(it[2], it[3], l, r))
+            out.append(leaf_src(it[2], it[3], l, r, xs))
         elif it[0] == "R":
             w0, w1, w2, w3 = next(ms), next(ms), next(ms), next(ms)
             out.append(f"{{%{w0} raw {w1}%}}{it[1]}{{%{w2} endraw {w3}%}}")
@@ -122,7 +150,7 @@ def to_source(items: list, ms: Iterator[str]) -> str:
             _, kind, p, body, secs = it
             l, r = next(ms), next(ms)
             out.append(f"{{%{l} {OPEN[kind].format(p=p)} {r}%}}")
-            out.append(to_source(body, ms))
+            out.append(to_source(body, ms, xs))
             for g, b in secs:
                 l, r = next(ms), next(ms)
                 if g[0] == "cond":
@@ -131,7 +159,7 @@ def to_source(items: list, ms: Iterator[str]) -> str:
                     out.append(f"{{%{l} when {', '.join(map(str, g[1]))} {r}%}}")
                 else:
                     out.append(f"{{%{l} else {r}%}}")
-                out.append(to_source(b, ms))
+                out.append(to_source(b, ms, xs))
             l, r = next(ms), next(ms)
             out.append(f"{{%{l} end{kind} {r}%}}")
     return "".join(out)
@@ -193,6 +221,10 @@ def real_flat(tokens: list) -> list[tuple]:
     return out
 
 
+class TokenMismatch(Exception):
+    pass
+
+
 def reconcile(items: list, want: list[tuple], got: list[tuple]) -> tuple[list, int]:
     """Make the tree equal to what the lexer produced.  The only accepted
     difference is a top-level final content token that the lexer split in two
@@ -204,7 +236,7 @@ def reconcile(items: list, want: list[tuple], got: list[tuple]) -> tuple[list, i
             and got[-2][0] == "C" and got[-1][0] == "C"
             and got[-2][1] + got[-1][1] == want[-1][1] and items and items[-1][0] == "C"):
         return items[:-1] + [("C", got[-2][1]), ("C", got[-1][1])], 1
-    raise AssertionError(f"printer/lexer mismatch:\n want {want}\n got  {got}")
+    raise TokenMismatch(f"printed tokens {want}, lexer returned {got}")
 
 
 # --------------------------------------------------------------------------
@@ -405,7 +437,8 @@ def safe_text(s: str) -> str:
 
 
 def gen_leaf(r: Any) -> tuple:
-    kind = r.choice(["out", "out", "out", "echo", "assign", "cmt1", "cmt2", "cmt3", "liqecho", "liqassign"])
+    kind = r.choice(["out", "out", "out", "echo", "assign", "cmt1", "cmt2", "cmt2", "cmt2n", "cmt2r", "cmt3",
+                     "liqecho", "liqassign"])
     via, writes = LEAF_KINDS[kind]
     return ("L", via, kind, r.randrange(4) if writes else None)
 
@@ -505,7 +538,9 @@ def small_programs(r: Any, max_pos: int) -> list[list]:
         ps.append([txt(), leafs[0], txt(), leafs[4], leafs[5], txt()])
         ps.append([("B", "capture", 1, [txt()], []), txt(), ("L", True, "echo", 1)])
         ps.append([txt(), ("R", gen_text(r)), leafs[0], txt()])
-    return [p for p in ps if n_positions(p) <= max_pos]
+    ps.append([txt(), ("L", False, "cmt2n", None), txt()])      # beyond the sweep: one-at-a-time + seeded
+    ps.append([txt(), ("L", False, "cmt2r", None), txt()])
+    return [p for p in ps if n_positions(p) + n_extra(p) <= max_pos or (len(p) == 3 and p[1][0] == "L" and p[1][2] in ("cmt2n", "cmt2r"))]
 
 
 CORPUS: list[list] = [
@@ -526,6 +561,90 @@ CORPUS: list[list] = [
     [("B", "for", 1, [("B", "capture", 0, [("L", False, "out", 0), ("C", " +")], [])], []), ("L", True, "echo", 0)],
     [("C", "\u2003a\u00a0"), ("L", False, "cmt1", None), ("C", "\x1c\x85b\u3000"), ("L", True, "assign", None), ("C", "\u200b \u200b")],
 ]
+
+def branch_corpus(r: Any, thorough: bool) -> list[tuple[list, list[dict[str, Any]]]]:
+    """Every branch of every block tag counts towards `blank`: a block tag whose
+    only text is in ONE branch (for body / for else / if / elsif / else / when /
+    case else ...), the other branches blank, is nested in an otherwise blank
+    block of every kind and rendered with data that selects the text branch
+    (and data that selects a blank one).  With suppression on the text must
+    survive.  Inner tags use b1, b2, a1, k1; outer tags b0, a0, k0."""
+    def ws() -> tuple:
+        return ("C", gen_ws(r))
+
+    def blank_branch() -> list:
+        k = r.randrange(5)
+        if k == 0:
+            return [ws()]
+        if k == 1:
+            return [ws(), ("L", True, "assign", None), ws()]
+        if k == 2:
+            return [("B", "capture", 3, [("C", " t ")], []), ws()]
+        if k == 3:
+            return [ws(), ("L", False, r.choice(["cmt1", "cmt2", "cmt3"]), None)]
+        return []
+
+    def text_branch() -> list:
+        return [("C", gen_ws(r) + r.choice(["T", "x y", NOT_WS + "q"]) + gen_ws(r))] if r.random() < 0.7 else \
+            [ws(), ("L", False, "out", 0), ws()]
+
+    inners: list[tuple[str, int]] = [("for", 2), ("if", 3), ("if2", 2), ("unless", 3), ("case", 3)]
+
+    def inner(kind: str, j: int) -> tuple[tuple, list[dict[str, Any]]]:
+        n = dict(inners)[kind]
+        br = [text_branch() if i == j else blank_branch() for i in range(n)]
+        if kind == "for":
+            node = ("B", "for", 1, br[0], [(("else",), br[1])])
+            sel = [{"a1": [0, 0]}, {"a1": []}]
+        elif kind == "if":
+            node = ("B", "if", 1, br[0], [(("cond", 2), br[1]), (("else",), br[2])])
+            sel = [{"b1": True}, {"b1": False, "b2": True}, {"b1": False, "b2": False}]
+        elif kind == "if2":
+            node = ("B", "if", 1, br[0], [(("else",), br[1])])
+            sel = [{"b1": True}, {"b1": False}]
+        elif kind == "unless":
+            node = ("B", "unless", 1, br[0], [(("cond", 2), br[1]), (("else",), br[2])])
+            sel = [{"b1": False}, {"b1": True, "b2": True}, {"b1": True, "b2": False}]
+        else:
+            node = ("B", "case", 1, [ws()] if r.random() < 0.5 else [],
+                    [(("when", [1]), br[0]), (("when", [2]), br[1]), (("else",), br[2])])
+            sel = [{"k1": 1}, {"k1": 2}, {"k1": 0}]
+        return node, [sel[j], sel[(j + 1) % n]]
+
+    def outers(node: tuple) -> list[tuple[list, dict[str, Any]]]:
+        mid = [ws(), node, ws()]
+        return [
+            ([("B", "if", 0, mid, [])], {"b0": True}),
+            ([("B", "unless", 0, mid, [])], {"b0": False}),
+            ([("B", "if", 0, [ws()], [(("else",), mid)])], {"b0": False}),
+            ([("B", "for", 0, mid, [])], {"a0": [0, 0]}),
+            ([("B", "for", 0, [("C", "x")], [(("else",), mid)])], {"a0": []}),
+            ([("B", "case", 0, [], [(("when", [1]), mid)])], {"k0": 1}),
+            ([("B", "case", 0, [ws()], [(("when", [1]), [ws()]), (("else",), mid)])], {"k0": 0}),
+            ([("B", "with", 0, mid, [])], {}),
+            ([("B", "capture", 2, mid, []), ("L", False, "out", 2)], {}),
+            ([("B", "with", 0, [("B", "if", 0, mid, [])], [])], {"b0": True}),
+        ]
+
+    out = []
+    n = 0
+    for kind, nb in inners:
+        for j in range(nb):
+            node, sels = inner(kind, j)
+            os_ = outers(node)
+            pick = os_ if thorough else [os_[(n + i * 3) % len(os_)] for i in range(3)]
+            n += 1
+            for items, enter in pick:
+                datas = []
+                for sel in sels:
+                    d = gen_data(r)
+                    d["v0"] = "V"
+                    d.update(enter)
+                    d.update(sel)
+                    datas.append(d)
+                out.append((items, datas))
+    return out
+
 
 ILL_FORMED: list[list] = [
     [("B", "case", 0, [("C", " x ")], [(("when", [1]), [("C", "a")])])],        # text after case
@@ -652,6 +771,8 @@ class GroupRunner:
         self.chk, self.what = chk, what
         self.ex = ThreadPoolExecutor(max_workers=C.JOBS)
         self.pending: list[tuple[dict[str, Any], Any]] = []
+        self.batch: list[dict[str, Any]] = []
+        self.batch_size = 0
         self.t0 = time.time()
 
     @staticmethod
@@ -659,11 +780,29 @@ class GroupRunner:
         return C.run_cases(g["tag"], IMPORTS, g["defs"], [it["case"] for it in g["items"]],
                            shard=max(1, len(g["items"])))
 
+    BATCH = 90_000          # characters of Coq text per cases.v file
+
     def submit(self, g: dict[str, Any]) -> None:
+        """Groups use distinct definition names, so small ones share a file."""
+        size = len(g["defs"]) + sum(len(it["case"]) for it in g["items"])
+        if self.batch and self.batch_size + size > self.BATCH:
+            self._flush()
+        self.batch.append(g)
+        self.batch_size += size
+        if self.batch_size > self.BATCH:
+            self._flush()
+
+    def _flush(self) -> None:
+        if not self.batch:
+            return
+        g = {"tag": self.batch[0]["tag"], "defs": "\n".join(b["defs"] for b in self.batch),
+             "items": [it for b in self.batch for it in b["items"]]}
+        self.batch, self.batch_size = [], 0
         self.pending.append((g, self.ex.submit(self._one, g)))
 
     def finish(self) -> None:
         import time
+        self._flush()
         chk, what = self.chk, self.what
         nbad = ncases = 0
         first: tuple | None = None
@@ -731,7 +870,8 @@ def main(chk: C.Check, build: C.Build) -> None:
     from liquid2.exceptions import LiquidSyntaxError
 
     exhaustive_max = 6 if thorough else 5
-    programs: list[tuple[str, list]] = [("corpus", p) for p in CORPUS]
+    programs: list[tuple] = [("corpus", p) for p in CORPUS]
+    programs += [("branch", p, d) for p, d in branch_corpus(r, thorough)]
     programs += [("small", p) for p in small_programs(r, exhaustive_max)]
     for _ in range(170 if thorough else 44):
         budget = [r.choice([3, 4, 6, 8] if thorough else [3, 4, 5, 6])]
@@ -746,20 +886,27 @@ def main(chk: C.Check, build: C.Build) -> None:
     samples: list[dict[str, Any]] = []
     evaluations = 0
 
-    def run_program(pi: int, origin: str, items: list, do_split: bool) -> None:
+    def run_program(pi: int, origin: str, items: list, do_split: bool,
+                    fixed_datas: list[dict[str, Any]] | None = None) -> None:
         nonlocal evaluations
         npos = n_positions(items)
-        stats["marker_positions_max"] = max(stats["marker_positions_max"], npos)
-        msets, exh = marker_sets(r, npos, exhaustive_max if origin != "illformed" else 0,
-                                 (48 if thorough else 10) if origin != "illformed" else 2)
+        nx = n_extra(items)
+        stats["marker_positions_max"] = max(stats["marker_positions_max"], npos + nx)
+        nrand = {"illformed": 2, "branch": 8 if thorough else 3}.get(origin, 48 if thorough else 10)
+        msets, exh = marker_sets(r, npos + nx, exhaustive_max if origin not in ("illformed", "branch") else 0, nrand)
         if origin == "illformed":
             msets = msets[:6]
+        if origin == "branch" and not thorough:
+            msets = msets[:4] + msets[-nrand:]           # all-same x4 + seeded
         if do_split:
             msets = msets[:: max(1, len(msets) // (40 if thorough else 12))]
             exh = False
-        datas = [gen_data(r, "true"), gen_data(r)]
-        if (thorough and npos < 6) or not exh:
-            datas += [gen_data(r), gen_data(r, "false")]
+        if fixed_datas is not None:
+            datas = fixed_datas
+        else:
+            datas = [gen_data(r, "true"), gen_data(r)]
+            if (thorough and npos + nx < 6) or not exh:
+                datas += [gen_data(r), gen_data(r, "false")]
         splits: dict[int, int] = {}
         split_items: list | None = None
         base_items: list | None = None
@@ -775,11 +922,39 @@ def main(chk: C.Check, build: C.Build) -> None:
         ref_erased = [erase(x) for x in ref_out]
         texts_expected: list[str] | None = None
         nums = []
-        for ms in msets:
+        sfx = f"_{pi}{'s' if do_split else ''}"
+        outcome_class: str | None = None
+
+        def class_changed(src: str, cls: str, detail: str) -> None:
+            chk.finding("oracle:marker-changes-outcome",
+                        f"a marker assignment changes what the template IS, not its whitespace: {src!r} is {cls} "
+                        f"({detail[:200]}) while the same tokens with other markers are {outcome_class}",
+                        {"source": src, "outcome": cls, "detail": detail, "other_assignments": outcome_class,
+                         "program": items})
+
+        for full in msets:
+            ms, xs = full[:npos], full[npos:]
             stats["assignments"] += 1
-            src = to_source(items, iter(ms))
-            got = real_flat(impl.tokens(src))
-            mitems, nsplit = reconcile(items, flat(items, iter(ms)), got)
+            src = to_source(items, iter(ms), iter(xs))
+            # the outcome class (tokens as printed / syntax error / other tokens)
+            # must not depend on the markers
+            try:
+                got = real_flat(impl.tokens(src))
+                mitems, nsplit = reconcile(items, flat(items, iter(ms)), got)
+                cls, detail = "lexed as printed", ""
+            except LiquidSyntaxError as e:
+                cls, detail = "LiquidSyntaxError (lexer)", str(e).splitlines()[0] if str(e) else ""
+            except TokenMismatch as e:
+                cls, detail = "lexed into different tokens", str(e)
+            evaluations += 1
+            if outcome_class is None:
+                outcome_class = cls
+                if cls != "lexed as printed" and origin != "illformed":
+                    class_changed(src, cls, detail)
+            elif cls != outcome_class:
+                class_changed(src, cls, detail)
+            if cls != "lexed as printed":
+                continue
             if as_lexed(flat(mitems, iter(ms))) != got:
                 raise AssertionError("reconciled token tree differs from the lexer's tokens")
             stats["content_tokens_split_by_lexer"] += nsplit
@@ -812,7 +987,9 @@ def main(chk: C.Check, build: C.Build) -> None:
                     stats["syntax_errors"] += 1
                     evaluations += 1
                     if origin != "illformed":
-                        raise AssertionError(f"generated program does not parse: {src!r}")
+                        chk.finding("oracle:marker-changes-outcome",
+                                    f"generated well-formed program is rejected by the parser with these markers: {src!r} (default_trim {dt!r})",
+                                    {"source": src, "default_trim": dt, "program": items})
                     for di in range(len(datas)):
                         for sup in (True, False):
                             exp.setdefault((dt, sup, di), []).append(-1)
@@ -853,14 +1030,16 @@ def main(chk: C.Check, build: C.Build) -> None:
                     if sup and out != res["outs"][(di, False)]:
                         stats["suppressed_outputs"] += 1
                     if out != ref_out[di]:
-                        nontrivial.add(f"{pi}{'s' if do_split else ''}:{num}:{dt}:{sup}:{di}")
+                        nontrivial.add(f"{sfx}:{assignment_number(full)}:{dt}:{sup}:{di}")
                     term = f"({tbl(out)}, {mk}, {rw})"
                     exp.setdefault((dt, sup, di), []).append(outc.setdefault(term, len(outc)))
-        assert model_items is not None
+        if model_items is None:                          # no assignment lexed as printed (reported above)
+            return
         gitems: list[dict[str, Any]] = []
         for (dt, sup, di), es in exp.items():
             es = [e if e >= 0 else len(outc) for e in es]
-            args = f"(Build_cfg {WC_COQ[dt]} {C.cbool(sup)}) P {C.cnat(npos)} D{di} TBL OUTC NS {C.clist(map(str, es), 'N')}"
+            args = (f"(Build_cfg {WC_COQ[dt]} {C.cbool(sup)}) P{sfx} {C.cnat(npos)} D{di}{sfx} TBL{sfx} OUTC{sfx} NS{sfx} "
+                    f"{C.clist(map(str, es), 'N')}")
             gitems.append({
                 "case": "check_sweep " + args,
                 "model": "sweep_failures " + args,
@@ -870,25 +1049,27 @@ def main(chk: C.Check, build: C.Build) -> None:
                            "sources_by_assignment_number": dict(list(srcs.items())[:40])}})
         if texts_expected is not None:
             gitems.append({
-                "case": ("list_eqb str_eqb (texts_of (content_pairs (fst (parse_items Plus Plus Default None P)))) "
+                "case": (f"list_eqb str_eqb (texts_of (content_pairs (fst (parse_items Plus Plus Default None P{sfx})))) "
                          + C.clist((C.cstr(t) for t in texts_expected), "str")),
-                "model": "texts_of (content_pairs (fst (parse_items Plus Plus Default None P)))",
+                "model": f"texts_of (content_pairs (fst (parse_items Plus Plus Default None P{sfx})))",
                 "replay": {"program": items, "content_texts": texts_expected}})
-        defs = [f"Definition P : tree := {c_tree(model_items)}."]
-        defs += [f"Definition D{i} : data := {c_data(d)}." for i, d in enumerate(datas)]
-        defs.append(f"Definition TBL : list str := {tbl.coq()}.")
-        defs.append(f"Definition OUTC : list outcome := {C.clist(outc, 'outcome')}.")
-        defs.append(f"Definition NS : list N := {C.clist(map(str, nums), 'N')}.")
+        defs = [f"Definition P{sfx} : tree := {c_tree(model_items)}."]
+        defs += [f"Definition D{i}{sfx} : data := {c_data(d)}." for i, d in enumerate(datas)]
+        defs.append(f"Definition TBL{sfx} : list str := {tbl.coq()}.")
+        defs.append(f"Definition OUTC{sfx} : list outcome := {C.clist(outc, 'outcome')}.")
+        defs.append(f"Definition NS{sfx} : list N := {C.clist(map(str, nums), 'N')}.")
         runner.submit({"tag": f"c18_{os.getpid()}_p{pi:03d}{'s' if do_split else ''}", "defs": "\n".join(defs), "items": gitems})
         if len(samples) < 5 and origin in ("random", "small") and pi % 7 == 0 and not do_split:
             ms = msets[len(msets) // 2]
-            src = to_source(items, iter(ms))
+            src = to_source(items, iter(ms[:npos]), iter(ms[npos:]))
             samples.append({"source": src, "default_trim": "-", "suppress": True, "data": datas[0],
                             "output": impl.run(src, "-", datas[:1])["outs"][(0, True)],
                             "marker_positions": npos, "assignments_run": len(msets), "exhaustive": exh})
 
-    for pi, (origin, items) in enumerate(programs):
-        run_program(pi, origin, items, False)
+    for pi, prog in enumerate(programs):
+        origin, items = prog[0], prog[1]
+        fixed = prog[2] if len(prog) > 2 else None
+        run_program(pi, origin, items, False, fixed)
         if origin in ("corpus", "random") and (thorough or pi % 2 == 0):
             run_program(pi, origin, items, True)
 
